@@ -28,10 +28,19 @@ if REPO not in sys.path:
 KINDS = ("schedule", "schedule_relative", "schedule_absolute")
 
 
+FALSY_EXCEPTIONS = [False]  # set per scenario ("falsy_exceptions": true): the raised exception objects are falsy (an empty aggregate error)
+
+
 class Boom(Exception):
     def __init__(self, ident):
         super().__init__(ident)
         self.ident = ident
+
+    def __bool__(self):
+        return not FALSY_EXCEPTIONS[0]
+
+    def __len__(self):
+        return 0 if FALSY_EXCEPTIONS[0] else 1
 
 
 def do_schedule(s, kind, delay, action):
@@ -60,6 +69,7 @@ def plant(s, node, ident, log, raising):
 def run_scenario(sc):
     """-> None or a description of the first disagreement with the oracle"""
     from reactivex.scheduler import CatchScheduler, VirtualTimeScheduler
+    FALSY_EXCEPTIONS[0] = bool(sc.get("falsy_exceptions"))
     verdicts = sc.get("verdicts", {})
     default = sc.get("default_verdict", True)
     # -- reference: the bare inner scheduler, nothing raises: the order actions run in
@@ -182,6 +192,13 @@ def scenarios():
     for fa in (1, 2):
         for default in (None, 0, "handled"):
             yield {"periodic": [{"fail_at": fa}], "ticks": 3, "default_verdict": default}
+    # the exception OBJECT may be falsy too (an aggregate error with no sub-errors): it is still handed to the handler, whose verdict decides
+    for roots in itertools.islice(trees(), 60):
+        for default in (True, False):
+            yield {"roots": roots, "default_verdict": default, "falsy_exceptions": True}
+    for fa in (1, 2):
+        for default in (True, False):
+            yield {"periodic": [{"fail_at": fa}], "ticks": 3, "default_verdict": default, "falsy_exceptions": True}
     for fa, fb in itertools.product((None, 1, 2, 3), repeat=2):
         for default in (True, False):
             yield {"periodic": [{"fail_at": fa}, {"fail_at": fb}], "ticks": 4, "default_verdict": default}
